@@ -134,6 +134,19 @@ func record(c *vkit.Case, x ran) bool {
 		set[h] = struct{}{}
 		sigMu.Unlock()
 	}
+	if x.m.Family == "Flatten" {
+		// order of Close calls (evidence only; judged through the probes' own rules)
+		outer := x.s.probes[0].stats().FirstCloseTick
+		for _, t := range x.s.probes[1:] {
+			if in := t.stats().FirstCloseTick; in > 0 && outer > 0 {
+				if in < outer {
+					r.Count("close order (Flatten)", "inner stream closed before the outer stream", 1)
+				} else {
+					r.Count("close order (Flatten)", "outer stream closed before an inner stream", 1)
+				}
+			}
+		}
+	}
 	if r.WantSample() && yielded >= 2 && np >= 2 && (c.Index%97 == 3 || x.m.fclass == "callback" && c.Index%13 == 1) {
 		r.Sample(map[string]any{"case": c.ID(), "scenario": x.m, "outcome": x.o, "probes": x.s.probeDump()})
 	}
@@ -318,6 +331,36 @@ func sequential(r *vkit.Report) {
 		ps := pairs[c.Index]
 		seqAllStops(c, pipeMeta(st, ps), func(s *scen) built { return buildPipeline(s, st, ps) })
 	})
+
+	// Hand on after use: stage a is built, the harness reads k outputs from it (k crossing the
+	// boundaries between a's inputs, also up to a's End), and only then a is given to stage b.
+	var hand []pspec
+	for _, a := range seqStages {
+		for _, b := range seqStages {
+			for n := 0; n <= pairN; n++ {
+				for k := -1; k <= n+3; k++ {
+					if k == 0 {
+						continue
+					}
+					base := pspec{Stages: []int{a, b}, Term: "consume", N: n, Pre: 1, PreK: k}
+					hand = append(hand, base)
+					for p := 0; p <= n; p++ {
+						ps := base
+						ps.Fault = fault{Kind: fSrc, P: p}
+						hand = append(hand, ps)
+					}
+				}
+			}
+		}
+	}
+	r.Cases("hand-on", len(hand), workers, func(c *vkit.Case) {
+		ps := hand[c.Index]
+		seqAllStops(c, pipeMeta(st, ps), func(s *scen) built { return buildPipeline(s, st, ps) })
+		r.Count("hand on after use", "configurations", 1)
+	})
+	if !r.Replaying() {
+		r.Floor("hand-on-after-use configurations", r.Table("hand on after use", "configurations"), int64(len(hand)))
+	}
 
 	// Pipelines of 2-3 owners plus a terminal, drawn from the seed.
 	np := r.Scale(30000, 1000000)
